@@ -24,6 +24,27 @@ var nilPtrTable = func() []*int {
 	return t
 }()
 
+// ptrIdentity: both families hold POINTERS as elements (the interface{} family the very same *int values
+// as the generic one) and several of the pointers point to equal numbers: an element is what == says it
+// is - the pointer -, not what it points to. Set by TestNilElements per case.
+var ptrIdentity bool
+
+var dupPtrTable = func() []*int {
+	t := make([]*int, 5)
+	for i := 1; i < 5; i++ {
+		v := ((i + 1) / 2) * 10 // 10 10 20 20: codes 1,2 and 3,4 are distinct pointers to equal numbers
+		t[i] = &v
+	}
+	return t
+}()
+
+func curPtrTable() []*int {
+	if ptrIdentity {
+		return dupPtrTable
+	}
+	return nilPtrTable
+}
+
 func nilToI(code []int) []interface{} {
 	if code == nil {
 		return nil
@@ -31,7 +52,11 @@ func nilToI(code []int) []interface{} {
 	r := make([]interface{}, len(code))
 	for i, c := range code {
 		if c != 0 {
-			r[i] = c * 10
+			if ptrIdentity {
+				r[i] = dupPtrTable[c]
+			} else {
+				r[i] = c * 10
+			}
 		}
 	}
 	return r
@@ -43,7 +68,7 @@ func nilToP(code []int) []*int {
 	}
 	r := make([]*int, len(code))
 	for i, c := range code {
-		r[i] = nilPtrTable[c]
+		r[i] = curPtrTable()[c]
 	}
 	return r
 }
@@ -56,6 +81,13 @@ func nilFromI(l []interface{}) []int {
 			r[i] = 0
 		case int:
 			r[i] = x / 10
+		case *int:
+			r[i] = -99
+			for c, q := range dupPtrTable {
+				if ptrIdentity && x == q && c != 0 {
+					r[i] = c
+				}
+			}
 		default:
 			r[i] = -99
 		}
@@ -67,7 +99,7 @@ func nilFromP(l []*int) []int {
 	r := make([]int, len(l))
 	for i, p := range l {
 		r[i] = -99
-		for c, q := range nilPtrTable {
+		for c, q := range curPtrTable() {
 			if p == q {
 				r[i] = c
 			}
@@ -96,9 +128,12 @@ func runNilElements(a, b []int) (key, msg string) {
 	show := func(l []int) string {
 		parts := make([]string, len(l))
 		for i, c := range l {
-			if c == 0 {
+			switch {
+			case c == 0:
 				parts[i] = "nil"
-			} else {
+			case ptrIdentity:
+				parts[i] = fmt.Sprintf("p%d(->%d)", c, *dupPtrTable[c])
+			default:
 				parts[i] = fmt.Sprint(c * 10)
 			}
 		}
@@ -190,7 +225,12 @@ func TestNilElements(t *testing.T) {
 	vlib.Check(t, "nil-elements", 6000, 60000, func(t *rapid.T) {
 		a := rapid.SliceOfN(rapid.IntRange(0, 4), 0, 7).Draw(t, "a")
 		b := rapid.SliceOfN(rapid.IntRange(0, 4), 0, 7).Draw(t, "b")
+		ptrIdentity = rapid.IntRange(0, 2).Draw(t, "ptrIdentity") == 0
+		defer func() { ptrIdentity = false }()
 		vlib.S().Eval("nil-elements")
+		if ptrIdentity {
+			vlib.S().Class("nil-elements/pointer-identity")
+		}
 		hasNil := false
 		for _, x := range append(append([]int{}, a...), b...) {
 			if x == 0 {
@@ -201,7 +241,7 @@ func TestNilElements(t *testing.T) {
 			vlib.S().NonTrivial("nil-elements", fmt.Sprintf("%v|%v", a, b))
 		}
 		if key, msg := runNilElements(a, b); key != "" {
-			vlib.WriteReplay("C05/nil", map[string][]int{"a": a, "b": b})
+			vlib.WriteReplay("C05/nil", map[string]any{"a": a, "b": b, "ptrIdentity": ptrIdentity})
 			if vlib.Fail(t, key, "%s", msg) {
 				t.Skip("known")
 			}
